@@ -126,7 +126,7 @@ func proofFieldValues(fn *ssa.Function) map[string]ssa.Value {
 // (some of) their arguments. In source order.
 func challengeCalls(fn *ssa.Function) []*ssa.Call {
 	var out []*ssa.Call
-	for _, g := range core.WithClosures(fn) {
+	for _, g := range unitFuncs(fn) {
 		for _, cs := range core.Calls(g) {
 			call, ok := cs.(*ssa.Call)
 			if !ok {
